@@ -165,6 +165,22 @@ def check(repo: Repo, rep: Report) -> None:
                     if isinstance(n, ast.Call) and (dotted(n.func) or "").startswith("self.observer.") and g.parent is not None \
                             and not (g.parent.is_func and g.parent.name in CORES):
                         rep.ob("Q6-delivery-sites", g, short(n), False, "downstream observer called outside an enqueued action")
+    # single writer of the serial disposable that holds the scheduled drain: assigning a SerialDisposable cancels
+    # the previously stored (possibly already re-scheduled, still pending) drain step
+    rep.rule("Q8-single-writer", "only ensure_active stores into the SerialDisposable holding the scheduled drain", floor=1)
+    for k in (so, oo):
+        for m in k.children:
+            if not m.is_func or m.name == "__init__":
+                continue
+            for g in m.walk():
+                if g.is_func:
+                    for s in sites(g):
+                        n = s.node
+                        if isinstance(n, ast.Assign) and any(u(t) == "self.disposable.disposable" for t in n.targets):
+                            rep.ob("Q8-single-writer", g, short(n, 70), g is ea,
+                                   "a second site assigns the SerialDisposable that holds the scheduled drain: the assignment in "
+                                   "ensure_active (made outside the lock) can then dispose a drain step that run() already "
+                                   "re-scheduled — the drain stops with is_acquired still set and later notifications stay undelivered")
     d = repo.fn(SO, "ScheduledObserver.dispose")
     ok = any(isinstance(s.node, ast.Call) and dotted(s.node.func) == "super().dispose" for s in sites(d)) and \
         any(isinstance(s.node, ast.Call) and dotted(s.node.func) == "self.disposable.dispose" for s in sites(d))
